@@ -439,6 +439,10 @@ def check(report, tier, only=None):
     # LostPeer must follow the observed end of the connection directly: the removal precedes the teardown of the request tasks
     obs = [ob_add, ob_remove, ob_remove_sid, ob_wrappers, ob_accessors, ob_removal_entry_points, lambda rep: handler.ob_handler_tail(rep, PROP), lambda rep: handler.ob_add_peer(rep, PROP),
            C12.ob_tail_aborts_tasks]
+    # the listing is what callers act on: every established connection goes through add_peer (no connection served without being listed, none listed twice),
+    # and a Peer handle is bound to the connection that is listed now
+    from props import C03 as _C03, C09 as _C09
+    obs += [_C03.ob_connecting_result, _C09.ob_disconnect]
     if tier == 'thorough':
         obs.append(ob_two_step)
     for f in obs:
